@@ -84,7 +84,8 @@ func main() {
 		"(c) one case = one damaged input from 17 generator families (flips of real dumps in compressed and uncompressed form, splices, hand-made gzip headers/trailers, well-formed gzip+framing around hostile block lengths / random protobuf / hostile entries / garbage DNS messages / decompression bombs / 100-400-block streams of ~1 MiB blocks); non-trivial = the parser got past the gzip header; distinct = distinct inputs; " +
 		"(d) one case = one dump -> reload round trip of a cache whose arguments are a point of the configuration space {size unset, 0, negative, 1, 63..65, 127..129, 300, 512, 640, 1000, 1023, 1024, 1025, 1087, 1088, 1500, 2048, 5000} x {lazy_cache_ttl 0, 3600, 86400} x {dump_interval unset, 0, negative, 1, 600, 3600} spelled as YAML arguments (decoded like coremain does) or as a sequence quick-setup string, x an entry count at a boundary {dump block multiples, configured size -1/0/+1 and its round-up to a block, between configured size and real capacity, capacity -1/0/+1, above capacity} x fill {Exec, hand-written dump with block sizes 1..1000, both} x writer/loader path {HTTP API, Close()+start-up file, periodic dump loop} x {same, other configuration on reload}; quick draws one count per boundary group and configuration, thorough takes all; non-trivial = the source held at least one live entry and the reloaded cache was compared; " +
 		"(e) one case = one dump travelling over real HTTP: cache content {empty, one entry, 260 mixed entries with lazy cache, multi-block sized answers} x download client model {Go default transport (first and second request of a kept-alive connection), compression handling off, Accept-Encoding sent by the caller with and without removing the declared Content-Encoding, Accept-Encoding: identity, HTTP/1.0 close-delimited, hand-driven HTTP/1.1 keep-alive / pipelined / decoding} x upload model {Content-Length, chunked, Expect: 100-continue, reused keep-alive connection, hand-written chunks of arbitrary sizes}, API mounted like coremain mounts it and served by net/http on a loopback listener; quick pairs every client with one loader per content, thorough takes the product; two (a) scenarios also fetch and upload their dump this way; non-trivial = the saved file held entries and the reloaded cache was compared with it; " +
-		"(f) scenario = cache holding Exec-stored answers of size classes {1, 8, 60, 70, 200, 440, 600 KiB, largest a 64 KiB wire message can hold (~2 MiB); thorough also 500, 900 KiB}, measured without name compression - A/AAAA/NS/MX/TXT RRsets under owner names of 24..254 bytes, each a legal <= 65535-byte message in the compressed form the upstream sent - alone, in groups (6x440K, 24x70K, 150x8K, 3x600K+3x440K, incompressible TXT answers (40x60K, 120 of 2..64 KiB, mixes), ladder of all classes, seed-drawn mixes of 0.5-4 MiB) and among 0..300 ordinary entries, via API and via Close()+restart file; judged like (a), then dumped and reloaded `rounds` more times (each dump walks the cache in another order); non-trivial = distinct (scenario, round, block length vector)")
+		"(f) scenario = cache holding Exec-stored answers of size classes {1, 8, 60, 70, 200, 440, 600 KiB, largest a 64 KiB wire message can hold (~2 MiB); thorough also 500, 900 KiB}, measured without name compression - A/AAAA/NS/MX/TXT RRsets under owner names of 24..254 bytes, each a legal <= 65535-byte message in the compressed form the upstream sent - alone, in groups (6x440K, 24x70K, 150x8K, 3x600K+3x440K, incompressible TXT answers (40x60K, 120 of 2..64 KiB, mixes), ladder of all classes, seed-drawn mixes of 0.5-4 MiB) and among 0..300 ordinary entries, via API and via Close()+restart file; judged like (a), then dumped and reloaded `rounds` more times (each dump walks the cache in another order); non-trivial = distinct (scenario, round, block length vector); " +
+		"(g) one case = one dump taken while other dumps of the same cache (2600-3800 entries, >= 20 blocks) are in flight: rounds of 3-6 GET /dump requests (API handler and a real client on a real listener) released together while entries are stored and hit; rounds in which an API dump is held at its first write until the periodic dump-to-file goroutine (armed by 1100 fresh keys) resp. the final dump of Close() has re-created the dump file, then released with further API dumps; file-file rounds (own caches) in which the held API dump parks the armed periodic dump, Close() is called and the leader is released once both file dumps are inside the dump-to-file function - judged is the dump file a restart would read; every completed dump is read by the independent reader and reloaded into an empty cache and must lie between the lone dumps taken before and after the round; non-trivial = the dump provably overlapped another (logical clock stepped at first write / return)")
 	rep.Assume("independent reader: Go standard library compress/gzip + hand-written 8-byte framing and protobuf field walker (no mosdns code, no generated protobuf code)")
 	rep.Assume("cache keys are never computed by the harness: injected entries use keys read from the dump of a scratch cache that stored the same question")
 	rep.Assume("wall-clock reads are bracketed: an entry whose message/cache expiry (whole seconds in the dump) lies within +-1 s of the bracket of its two probes is not judged; TTLs are judged against the set of ages possible within the bracket")
@@ -145,6 +146,10 @@ func main() {
 
 	// ---- (d) the configuration space ----
 	runCapacityPhase()
+	poolsan.Sweep()
+
+	// ---- (g) overlapping dumps ----
+	runOverlapPhase()
 	poolsan.Sweep()
 
 	// ---- material for (b) and (c) ----
@@ -709,6 +714,10 @@ func runReplay() {
 			os.Exit(3)
 		}
 		runHTTPContent([]httpCase{*c.HTTP})
+	case "overlap":
+		for i := 0; i < 5 && rep.Violations() == 0; i++ {
+			runOverlapPhase()
+		}
 	case "capacity":
 		if c.Cap == nil {
 			fmt.Println("replay: no capacity case")
